@@ -14,6 +14,9 @@ import (
 	"net/http/httptest"
 	"net/url"
 	"os"
+	"regexp"
+	"sort"
+	"strconv"
 	"strings"
 	"sync"
 
@@ -127,7 +130,7 @@ type Sidecar struct {
 	Generated []byte
 	// Told is what the Prometheus of this shard was last told to scrape: the targets handed to the
 	// update callbacks (the injector's input) since this process started; nil until a callback ran
-	Told    map[string][]*target.Target
+	Told map[string][]*target.Target
 	// CallbackErr, when set, makes the update callbacks fail (Prometheus refusing the reload)
 	CallbackErr error
 	inj         *sidecar.Injector
@@ -199,6 +202,33 @@ func (s *Sidecar) Restart(keepConfig bool) error {
 		s.CM.AddReloadCallbacks(cbs...)
 	}
 	return s.start()
+}
+
+var genHashRe = regexp.MustCompile(`__param__hash: "?(\d+)"?`)
+
+// PromTargets is what the Prometheus of this shard scrapes: with an injector, the targets (their hashes) that the
+// generated configuration file lists - the file is all Prometheus ever sees; without one, what the update
+// callbacks were told.
+func (s *Sidecar) PromTargets() []uint64 {
+	var hs []uint64
+	if s.withInj {
+		seen := map[uint64]bool{}
+		for _, m := range genHashRe.FindAllSubmatch(s.Generated, -1) {
+			h, err := strconv.ParseUint(string(m[1]), 10, 64)
+			if err == nil && !seen[h] {
+				seen[h] = true
+				hs = append(hs, h)
+			}
+		}
+	} else {
+		for _, ts := range s.Told {
+			for _, t := range ts {
+				hs = append(hs, t.Hash)
+			}
+		}
+	}
+	sort.Slice(hs, func(a, b int) bool { return hs[a] < hs[b] })
+	return hs
 }
 
 // Do sends a request to the sidecar API, following gin's trailing-slash redirects.
